@@ -56,8 +56,6 @@ class CSSParser(object):
         if loglevel is not None:
             css_parser.log.setLevel(loglevel)
 
-        # remember global setting
-        self.__globalRaising = css_parser.log.raiseExceptions
         if raiseExceptions:
             self.__parseRaising = raiseExceptions
         else:
@@ -69,14 +67,21 @@ class CSSParser(object):
 
         self._validate = validate
 
-    def __parseSetting(self, parse):
+    def __parseSetting(self, parse, globalRaising=None):
         """during parse exceptions may be handled differently depending on
         init parameter ``raiseExceptions``
+
+        Called with ``parse=True`` when parsing starts: returns the global
+        setting in effect at that moment, which is to be handed back with
+        ``parse=False`` when parsing ends.
         """
         if parse:
+            # remember global setting
+            globalRaising = css_parser.log.raiseExceptions
             css_parser.log.raiseExceptions = self.__parseRaising
+            return globalRaising
         else:
-            css_parser.log.raiseExceptions = self.__globalRaising
+            css_parser.log.raiseExceptions = globalRaising
 
     def parseStyle(self, cssText, encoding='utf-8', validate=None):
         """Parse given `cssText` which is assumed to be the content of
@@ -93,7 +98,7 @@ class CSSParser(object):
         :returns:
             :class:`~css_parser.css.CSSStyleDeclaration`
         """
-        self.__parseSetting(True)
+        globalRaising = self.__parseSetting(True)
         try:
             if isinstance(cssText, bytes):
                 # TODO: use codecs.getdecoder('css') here?
@@ -103,7 +108,7 @@ class CSSParser(object):
             style = css.CSSStyleDeclaration(cssText, validating=validate)
         finally:
             # restore the global setting also if parsing raised
-            self.__parseSetting(False)
+            self.__parseSetting(False, globalRaising)
         return style
 
     def parseString(self, cssText, encoding=None, href=None, media=None,
@@ -135,7 +140,7 @@ class CSSParser(object):
         :returns:
             :class:`~css_parser.css.CSSStyleSheet`.
         """
-        self.__parseSetting(True)
+        globalRaising = self.__parseSetting(True)
         try:
             # TODO: py3 needs bytes here!
             if isinstance(cssText, bytes):
@@ -156,7 +161,7 @@ class CSSParser(object):
                                                   encodingOverride=encoding)
         finally:
             # restore the global setting also if parsing raised
-            self.__parseSetting(False)
+            self.__parseSetting(False, globalRaising)
         return sheet
 
     def parseFile(self, filename, encoding=None,
